@@ -21,7 +21,12 @@ type cval struct {
 	v constant.Value
 	// nilc marks the nil constant of pointer/interface/slice/map type
 	nilc bool
+	// sym != "" marks a symbolic non-nil reference: equal only to itself,
+	// different from nil, opaque to arithmetic.
+	sym string
 }
+
+func cSym(id string) cval { return cval{k: 1, sym: id} }
 
 var (
 	cBottom = cval{k: 0}
@@ -33,12 +38,18 @@ func cNil() cval                   { return cval{k: 1, nilc: true} }
 
 func (a cval) isConst() bool { return a.k == 1 }
 
+// isPlain: an ordinary go/constant value (not nil, not symbolic).
+func (a cval) isPlain() bool { return a.k == 1 && !a.nilc && a.sym == "" }
+
 func (a cval) eq(b cval) bool {
 	if a.k != b.k {
 		return false
 	}
 	if a.k != 1 {
 		return true
+	}
+	if a.sym != "" || b.sym != "" {
+		return a.sym == b.sym
 	}
 	if a.nilc || b.nilc {
 		return a.nilc == b.nilc
@@ -74,6 +85,9 @@ func (a cval) String() string {
 	}
 	if a.nilc {
 		return "nil"
+	}
+	if a.sym != "" {
+		return "<" + a.sym + ">"
 	}
 	return a.v.ExactString()
 }
@@ -231,7 +245,7 @@ func (r *sccpRun) markEdge(from, to *ssa.BasicBlock) bool {
 }
 
 func isBoolConst(c cval) (bool, bool) {
-	if c.k == 1 && !c.nilc && c.v.Kind() == constant.Bool {
+	if c.k == 1 && !c.nilc && c.sym == "" && c.v.Kind() == constant.Bool {
 		return constant.BoolVal(c.v), true
 	}
 	return false, false
@@ -273,7 +287,7 @@ func (r *sccpRun) step(b *ssa.BasicBlock, in ssa.Instruction) bool {
 		a := r.get(x.X)
 		switch x.Op {
 		case token.NOT, token.SUB, token.XOR:
-			if a.k == 1 && !a.nilc {
+			if a.k == 1 && !a.nilc && a.sym == "" {
 				defer func() { recover() }()
 				return r.set(x, cConst(constant.UnaryOp(x.Op, a.v, 0)))
 			}
@@ -326,6 +340,16 @@ func binop(op token.Token, a, b cval, operandType types.Type) (out cval) {
 			out = cTop
 		}
 	}()
+	if a.sym != "" || b.sym != "" {
+		same := a.sym == b.sym
+		if op == token.EQL {
+			return cConst(constant.MakeBool(same))
+		}
+		if op == token.NEQ {
+			return cConst(constant.MakeBool(!same))
+		}
+		return cTop
+	}
 	if a.nilc || b.nilc {
 		if op == token.EQL {
 			return cConst(constant.MakeBool(a.nilc && b.nilc))
@@ -360,7 +384,7 @@ func binop(op token.Token, a, b cval, operandType types.Type) (out cval) {
 }
 
 func convertConst(a cval, t types.Type) cval {
-	if a.k != 1 || a.nilc {
+	if a.k != 1 || a.nilc || a.sym != "" {
 		return a
 	}
 	b, ok := t.Underlying().(*types.Basic)
@@ -441,7 +465,7 @@ func (r *sccpRun) call(x *ssa.Call) bool {
 		top[i] = cTop
 	}
 	if b, ok := x.Call.Value.(*ssa.Builtin); ok {
-		if b.Name() == "len" && len(args) == 1 && args[0].isConst() && !args[0].nilc && args[0].v.Kind() == constant.String {
+		if b.Name() == "len" && len(args) == 1 && args[0].isPlain() && args[0].v.Kind() == constant.String {
 			return r.set(x, cConst(constant.MakeInt64(int64(len(constant.StringVal(args[0].v))))))
 		}
 		if b.Name() == "len" {
@@ -460,7 +484,7 @@ func (r *sccpRun) call(x *ssa.Call) bool {
 	if callee == nil {
 		return setResults(top)
 	}
-	if callee.Pkg != nil && callee.Pkg.Pkg.Path() == "strings" && len(args) == 1 && args[0].isConst() && args[0].v.Kind() == constant.String {
+	if callee.Pkg != nil && callee.Pkg.Pkg.Path() == "strings" && len(args) == 1 && args[0].isPlain() && args[0].v.Kind() == constant.String {
 		s := constant.StringVal(args[0].v)
 		switch callee.Name() {
 		case "ToLower":
